@@ -287,5 +287,12 @@ example : ∀ l ∈ witnessShowFrom.locations, ShowFromWhole witnessShowFrom (fu
   · right; left; decide
   · right; right; exact ⟨⟨5, 12, 0⟩, by decide, by decide⟩
 example : (frames witnessShowFrom ⟨[1, 2], [3], [], [], []⟩).length = 6 := by decide
+-- non-vacuity of `showFrom_removes_only_root_side` / `showFrom_frames_only_removed`: a sample that IS kept
+-- and really cut (inside the known finding: 6 frames before, fewer after)
+example : ∃ s', showFromSample witnessShowFrom startsWithS ⟨[1, 2], [3], [], [], []⟩ = some s' ∧
+    (frames (showFrom witnessShowFrom (some startsWithS)).1 s').length <
+      (frames witnessShowFrom ⟨[1, 2], [3], [], [], []⟩).length := by
+  refine ⟨_, rfl, ?_⟩
+  decide
 
 end PV.Props.C06
